@@ -9,7 +9,6 @@ import (
 	"github.com/nspcc-dev/neo-go/pkg/core"
 	"github.com/nspcc-dev/neo-go/pkg/core/native/nativehashes"
 	"github.com/nspcc-dev/neo-go/pkg/core/native/nativeids"
-	"github.com/nspcc-dev/neo-go/pkg/core/native/noderoles"
 	"github.com/nspcc-dev/neo-go/pkg/core/state"
 	"github.com/nspcc-dev/neo-go/pkg/core/transaction"
 	"github.com/nspcc-dev/neo-go/pkg/crypto/keys"
@@ -60,6 +59,7 @@ type world struct {
 	seq      int
 	spent    map[util.Uint160]int64 // fees of the transactions already built for the next block, per payer
 	mgmtToks map[string]bool        // tokens of the contracts whose deployment was attempted in a block
+	follow   []*op                  // operations queued to follow the one just generated, in the same block
 }
 
 func newWorld(r *prng.R, tb *chainx.TB, net *chainx.Net, a *chainx.Node) *world {
@@ -321,6 +321,14 @@ func (w *world) committeeOp(kind string, contract util.Uint160, method string, d
 
 func (w *world) opPolicySet(which int, v int64, bad bool) *op {
 	names := []string{"setFeePerByte", "setExecFeeFactor", "setStoragePrice"}
+	if w.r.Chance(1, 12) {
+		// beyond int64 / uint32: setFeePerByte converts with big.Int.Int64 (low 64 bits), the others with ToUint32
+		bv := new(big.Int).Add(new(big.Int).Lsh(big.NewInt(1), 64), big.NewInt(v))
+		if w.r.Bool() {
+			bv = new(big.Int).Add(new(big.Int).Lsh(big.NewInt(1), 63), big.NewInt(v))
+		}
+		return w.committeeOp("policy."+names[which], nativehashes.PolicyContract, names[which], bv.String(), true, bad, bv)
+	}
 	return w.committeeOp("policy."+names[which], nativehashes.PolicyContract, names[which], fmt.Sprint(v), true, bad, v)
 }
 
@@ -342,57 +350,24 @@ func (w *world) opBlock(h util.Uint160, unblock bool, bad bool) *op {
 	return o
 }
 
-func (w *world) opDesignate(role noderoles.Role, idx []int) *op {
-	pubs := make([]any, len(idx))
-	strs := make([]string, len(idx))
-	for i, k := range idx {
-		pubs[i] = w.net.Pub(k).Bytes()
-		strs[i] = fmt.Sprint(k)
-	}
-	return w.committeeOp("role.designate", nativehashes.RoleManagement, "designateAsRole",
-		fmt.Sprintf("%d %s", role, strings.Join(strs, ".")), false, false, int64(role), pubs)
-}
-
-func (w *world) opNativeSetting(which int, v int64) *op {
-	switch which {
-	case 0:
-		return w.committeeOp("neo.setGasPerBlock", nativehashes.NeoToken, "setGasPerBlock", fmt.Sprint(v), false, false, v)
-	case 1:
-		return w.committeeOp("neo.setRegisterPrice", nativehashes.NeoToken, "setRegisterPrice", fmt.Sprint(v), false, false, v)
-	case 2:
-		return w.committeeOp("notary.setMaxNotValidBeforeDelta", nativehashes.Notary, "setMaxNotValidBeforeDelta", fmt.Sprint(v), false, false, v)
-	case 3:
-		return w.committeeOp("oracle.setPrice", nativehashes.OracleContract, "setPrice", fmt.Sprint(v), false, false, v)
-	default:
-		return w.committeeOp("oracle.setPrice", nativehashes.OracleContract, "setPrice", fmt.Sprint(v), false, false, v)
-	}
-}
-
 var attrTypes = []transaction.AttrType{transaction.HighPriority, transaction.OracleResponseT, transaction.NotValidBeforeT, transaction.ConflictsT, transaction.NotaryAssistedT}
 
-// opPolicyMisc: the Policy/Management setters beyond the three modelled ones (search-only).
-func (w *world) opPolicyMisc(which int) *op {
-	r := w.r
-	switch which {
-	case 0:
-		t := attrTypes[r.Intn(len(attrTypes))]
-		v := int64(r.Intn(5_0000_0000))
-		return w.committeeOp("policy.setAttributeFee", nativehashes.PolicyContract, "setAttributeFee", fmt.Sprintf("%d %d", t, v), false, false, int64(t), v)
-	case 1:
-		mtb := int64(w.bc().GetMaxTraceableBlocks())
-		v := 2 + int64(r.Intn(int(max(1, mtb-2))))
-		return w.committeeOp("policy.setMaxValidUntilBlockIncrement", nativehashes.PolicyContract, "setMaxValidUntilBlockIncrement", fmt.Sprint(v), false, false, v)
-	case 2:
-		mtb := int64(w.bc().GetMaxTraceableBlocks())
-		v := mtb - int64(r.Intn(3))
-		return w.committeeOp("policy.setMaxTraceableBlocks", nativehashes.PolicyContract, "setMaxTraceableBlocks", fmt.Sprint(v), false, false, v)
-	case 3:
-		v := int64(r.Intn(20_0000_0000))
-		return w.committeeOp("management.setMinimumDeploymentFee", nativehashes.ContractManagement, "setMinimumDeploymentFee", fmt.Sprint(v), false, false, v)
-	default:
-		v := int64(1 + r.Intn(30000))
-		return w.committeeOp("policy.setMillisecondsPerBlock", nativehashes.PolicyContract, "setMillisecondsPerBlock", fmt.Sprint(v), false, false, v)
+// opMinDeploymentFee: Management.setMinimumDeploymentFee (no cache: the getter re-reads storage through dao.GetInt).
+func (w *world) opMinDeploymentFee() *op {
+	var v any = int64(w.r.Intn(20_0000_0000))
+	if w.r.Chance(1, 3) {
+		switch w.r.Intn(4) {
+		case 0:
+			v = int64(0)
+		case 1:
+			v = int64(-1)
+		case 2:
+			v = new(big.Int).Lsh(big.NewInt(1), 64) // stored as 2^64, read back as 0 (low 64 bits)
+		default:
+			v = new(big.Int).Add(new(big.Int).Lsh(big.NewInt(1), 64), big.NewInt(5_0000_0000))
+		}
 	}
+	return w.guardedSet("management.setMinimumDeploymentFee", nativehashes.ContractManagement, "setMinimumDeploymentFee", w.badWitness(), v)
 }
 
 var kvMethods = []struct {
